@@ -68,6 +68,28 @@ func finish(b *rb, sel []centry, unsel []centry, addfiles []string, ext *rb, nov
 	return d
 }
 
+// finishPkgs is finish with explicit package directories, slots and profile line
+func finishPkgs(b *rb, pkgs []pkgDesc, slots []string, profile string, novdb bool) rootDesc {
+	for i, p := range pkgs {
+		d := "/var/db/pkg/" + p.Cat + "/" + p.PV
+		lines := []string{}
+		for _, c := range p.Contents {
+			switch c.T {
+			case "dir":
+				lines = append(lines, "dir "+c.P)
+			case "obj":
+				lines = append(lines, "obj "+c.P+" d41d8cd98f00b204e9800998ecf8427e 1500000000")
+			case "sym":
+				lines = append(lines, "sym "+c.P+" -> "+c.Targ+" 1500000000")
+			}
+		}
+		b.text(d+"/CONTENTS", strings.Join(lines, "\n")+"\n")
+		b.text(d+"/SLOT", slots[i]+"\n")
+	}
+	b.text("/etc/portage/make.profile/packages", profile+"\n")
+	return rootDesc{Objs: b.objs, Pkgs: pkgs, NoVDB: novdb, EmptyDev: true}
+}
+
 func plainFile(b *rb, p string, size int) {
 	b.dir(pathDir(p))
 	b.push(fobj{P: p, T: "f", Mode: 0644, Mtime: 1500000100, Size: size, Seed: int64(len(p))})
@@ -151,6 +173,47 @@ func directedRoots() []directed {
 		b.objs[b.idx["/usr/bin/withx"]].Xattrs = [][2]string{{"user.comment", "hello"}}
 		b.sym("/usr/bin/tox", "withx")
 		out = append(out, directed{"xattr-via-symlink", finish(b, []centry{obj1, {"obj", "/usr/bin/withx", ""}, {"sym", "/usr/bin/tox", "withx"}}, nil, nil, nil, false, true)})
+	}
+	// symlinks carrying extended attributes of their own (trusted.*): to a file without
+	// that attribute, to a file with a same-named attribute of another value, dangling
+	{
+		b := base()
+		plainFile(b, "/usr/bin/plain", 10)
+		plainFile(b, "/usr/bin/other", 10)
+		b.objs[b.idx["/usr/bin/other"]].Xattrs = [][2]string{{"trusted.note", "of-target"}}
+		b.sym("/usr/bin/lnk1", "plain")
+		b.objs[b.idx["/usr/bin/lnk1"]].Xattrs = [][2]string{{"trusted.note", "of-link-1"}}
+		b.sym("/usr/bin/lnk2", "other")
+		b.objs[b.idx["/usr/bin/lnk2"]].Xattrs = [][2]string{{"trusted.note", "of-link-2"}}
+		b.sym("/usr/bin/lnk3", "nowhere")
+		b.objs[b.idx["/usr/bin/lnk3"]].Xattrs = [][2]string{{"trusted.note", "of-link-3"}}
+		out = append(out, directed{"xattr-on-symlink", finish(b, []centry{obj1, {"obj", "/usr/bin/plain", ""}, {"obj", "/usr/bin/other", ""},
+			{"sym", "/usr/bin/lnk1", "plain"}, {"sym", "/usr/bin/lnk2", "other"}, {"sym", "/usr/bin/lnk3", "nowhere"}}, nil, nil, nil, false, true)})
+	}
+	// a user "file NAME src=..." whose source is a multiply linked member of the archive:
+	// the copy is a file of its own with its own mode/owner, the group keeps theirs
+	{
+		b := base()
+		plainFile(b, "/etc/orig", 30)
+		b.hard("/etc/orig.lnk", "/etc/orig")
+		out = append(out, directed{"src-of-hardlink-group", finish(b, []centry{obj1, {"obj", "/etc/orig", ""}, {"obj", "/etc/orig.lnk", ""}}, nil,
+			[]string{"file /etc/copy src=$$stageroot/etc/orig mod=0600 uid=9 gid=7", "file /etc/zcopy src=$$stageroot/etc/orig.lnk mod=0640"}, nil, false, true)})
+	}
+	// an unselected package records an existing symlink that points at a file of the selected
+	// package: the link must not leak into the archive
+	{
+		b := base()
+		b.sym("/usr/bin/one-compat", "one")
+		out = append(out, directed{"unsel-symlink-to-selected", finish(b, []centry{obj1}, []centry{{"sym", "/usr/bin/one-compat", "one"}}, nil, nil, false, true)})
+	}
+	// the selected package's database directory name is a string prefix of an unselected
+	// one's (one-1.0 / one-1.0_p1 in different slots): only the selected one's entries belong
+	{
+		b := base()
+		plainFile(b, "/usr/bin/one-p1", 10)
+		pkgs := []pkgDesc{{Cat: "app-misc", PV: "one-1.0", Sel: true, Contents: []centry{obj1}},
+			{Cat: "app-misc", PV: "one-1.0_p1", Sel: false, Contents: []centry{{"obj", "/usr/bin/one-p1", ""}}}}
+		out = append(out, directed{"vdb-name-prefix", finishPkgs(b, pkgs, []string{"1", "2"}, "*app-misc/one:1", false)})
 	}
 	// user entry below directories nobody has (#36)
 	{
